@@ -126,6 +126,11 @@ func (w *watches) updatePath(path string, f func(*watch) (*watch, error)) error 
 
 		if upd.wd != wd {
 			delete(w.wd, wd)
+			// The file is already watched under another path: don't keep
+			// this path pointing at a watch that no longer exists.
+			if ok && upd.path != path {
+				delete(w.path, path)
+			}
 		}
 	}
 
@@ -264,6 +269,12 @@ func (w *inotify) register(path string, flags uint32, recurse bool) error {
 		wd, err := unix.InotifyAddWatch(w.fd, path, flags)
 		if wd == -1 {
 			return nil, err
+		}
+
+		// The path now refers to a different file: release the watch on the
+		// old one (it may be gone already, so ignore the error).
+		if existing != nil && existing.wd != uint32(wd) {
+			unix.InotifyRmWatch(w.fd, existing.wd)
 		}
 
 		if e, ok := w.watches.wd[uint32(wd)]; ok {
